@@ -81,6 +81,18 @@ def handle (j : Json) : List (String × Json) :=
             -- "at least one data definition" in a list is an ABNF rule (1*data-def), not a table cell
             (ps = "list" && cs = "leaf" && cnt = 0)))]
       | _ => [("m", v), ("s", v)]
+    else if jhas j "order" then
+      -- the sections of a module in the order written: header ≤ linkage ≤ meta ≤ revision ≤ body; extension statements
+      -- (the marker, whatever its prefix) anywhere; a header statement after another section is an error
+      let parts := (jstr j "order").splitOn ","
+      let rank (x : String) : Option Nat := match x with
+        | "hdr" => some 0 | "link" => some 1 | "meta" => some 2 | "rev" => some 3 | "body" => some 4 | _ => none
+      let secs := parts.filterMap rank
+      let rec asc : List Nat → Bool
+        | a :: b :: r => a ≤ b && asc (b :: r)
+        | _ => true
+      let okS := asc secs && !(parts.head? = some "split-header")
+      [("m", v), ("s", if okS then "ok" else if v.startsWith "err" then v else "err:1:0 leak=0")]
     else if jhas j "ext" then
       -- a statement whose keyword carries a prefix is an extension statement: accepted under every parent; one without is not
       match jarr j "ext" with
